@@ -11,6 +11,8 @@ import Tahoe.Base.Merkle
       cneeded <numleaves> <leafnum> <0|1>                                -> HashTree.needed_hashes (sorted) | err
       new <numleaves>                                                    -> <first_leaf_num> <tree>
       needed <first> <leafnum> <0|1> <tree>                              -> sorted list | err
+      validate <first> <leafnum> <prio> <tree> <genuine tree>              -> <batch i=t,…|-> <outcome>:<tree> | err
+           (needed_hashes(leafnum) answered with the genuine values + the genuine leaf, then set_hashes)
       hist <asis|fixed> <numleaves> <call> <call> …   call = <prio>|<hashes>|<leaves>, hashes/leaves = i=t,i=t,… or -
            keys i are Python ints (negative / too large allowed); prio = order in which set.pop() prefers
            indices (comma list or -); outcome `reject` = a negative key was red-dotted (rejected with
@@ -146,6 +148,15 @@ def handle : List String → String
     | some first, some leaf, some inc, some t =>
       (match neededHashes? t first leaf inc with | none => "err" | some l => showNats (sortDedup l))
     | _, _, _, _ => "bad-op"
+  | ["validate", first, leaf, prio, tree, gtree] =>
+    match first.toNat?, leaf.toNat?, parseNatList prio, parseTree tree, parseTree gtree with
+    | some first, some leaf, some prio, some t, some T =>
+      (match validateLeaf symOps Cfg.repaired (pickOf prio) first t T leaf with
+       | none => "err"
+       | some (batch, o, t') =>
+         let b := if batch.isEmpty then "-" else ",".intercalate (batch.map (fun p => s!"{p.1}={showTerm p.2}"))
+         s!"{b} {showOutcome o}:{showTree t'}")
+    | _, _, _, _, _ => "bad-op"
   | "hist" :: mode :: n :: calls =>
     let cfg? : Option Cfg := if mode == "asis" then some Cfg.asIs else if mode == "fixed" then some Cfg.repaired else none
     match cfg?, n.toNat? with
